@@ -25,6 +25,11 @@
 #include "upipe-modules/upipe_worker_linear.h"
 #include "upipe-modules/upipe_worker_sink.h"
 #include "upipe-modules/upipe_worker_source.h"
+#include "upipe-pthread/upipe_pthread_transfer.h"
+#include "upipe-pthread/uprobe_pthread_upump_mgr.h"
+#include <pthread.h>
+#include <sched.h>
+#include <time.h>
 #include <stdlib.h>
 #include <stdio.h>
 #include <execinfo.h>
@@ -66,14 +71,14 @@ enum { R_REMOTE = 0, R_SOURCE, R_TAP, R_PSEUDO };
 
 enum { CL_INFLIGHT, CL_FLUSH_STALL, CL_FLOWDEF_MID, CL_RELEASE_RACE, CL_TWO_PRODUCERS, CL_WLIN, CL_WSINK, CL_WSRC,
        CL_STALLED, CL_SRC_BLOCKED, CL_LONGQ, CL_PREEMPTED, CL_FROZEN_CTRL, CL_EVENTS_FWD, CL_PSEUDO_OUT, CL_DELIVERED8,
-       CL_PROBE_FREEZE, CL_MUTEX, CL_REATTACH, CL_FLUSH, CL_CHAIN2, CL_RELEASE_SRC_FIRST, CL_MAXLEN };
+       CL_PROBE_FREEZE, CL_MUTEX, CL_REATTACH, CL_FLUSH, CL_CHAIN2, CL_RELEASE_SRC_FIRST, CL_MAXLEN, CL_REAL_THREAD };
 static const char *const class_names[] = {
     "inflight_gt_queue_length", "flush_during_stall", "flow_def_change_in_mid_stream", "release_with_undelivered_buffers",
     "two_producers", "topology_wlin", "topology_wsink", "topology_wsrc",
     "qsink_stalled_event", "source_pump_blocked", "queue_length_gt_4", "preempted_inside_a_call", "control_under_freeze",
     "events_forwarded", "pseudo_output_set_and_cleared", "delivered_ge_8",
     "probe_frozen_during_alloc", "xfer_mutex", "upump_mgr_reattached", "flush", "remote_chain_of_2", "source_released_before_sinks",
-    "set_max_length", NULL };
+    "set_max_length", "real_loop_thread_pthread_transfer", NULL };
 
 struct ctx;
 
@@ -122,7 +127,10 @@ struct ctx {
     bool mutex_locked;
     bool with_mutex;
     bool transferred;               /* remote pipes now belong to thread B */
+    bool in_worker_alloc;
     int topo, nsinks, far_side;
+    struct bth *bth;                /* real loop thread (worker topologies, tape-chosen): see "real loop thread" below */
+    struct uprobe *pth_probe;       /* the real uprobe_pthread_upump_mgr serving both threads in that mode */
     unsigned qlen, qlen2, xlen;
     /* pipes held by the application */
     struct upipe *sink[2], *qsrc, *worker, *tap, *farsink, *pseudo;
@@ -166,7 +174,7 @@ struct ctx {
     unsigned hooks_in_op;
     int ret;
     uint64_t hash;
-    uint32_t classes;
+    uint64_t classes;
     uint32_t excluded;
     int nops;
 };
@@ -179,15 +187,157 @@ int __lsan_is_turned_off(void) { return ctx.ret != 0; }
 #define R(...) do { if (c->render) vp_render(c->rep, __VA_ARGS__); } while (0)
 #define FAIL(key, ...) do { if (!c->ret && KEY_ACTIVE(key)) { c->ret = vp_fail(c->rep, PID "/" key, __VA_ARGS__); R("    !! %s\n", c->rep->msg); } } while (0)
 #define INTERNAL(...) do { if (c->ret != 2) { c->rep->key[0] = 0; c->ret = vp_internal(c->rep, __VA_ARGS__); R("    !! internal: %s\n", c->rep->msg); } } while (0)
-#define CLS(b) (c->classes |= 1u << (b))
+#define CLS(b) (c->classes |= 1ull << (b))
 
 static const char *side_name(int s) { return s == SA ? "A" : s == SB ? "B" : "-"; }
 
+/* ---------------------------------------------------------------- real loop thread (lib/upipe-pthread)
+ * In a share of the worker cases thread B is a REAL OS thread, created by upipe_pthread_xfer_mgr_alloc() exactly as applications
+ * do, and the upump managers are served by the real uprobe_pthread_upump_mgr (thread-local storage, per-thread freeze count).
+ * The schedule stays owned by the harness: the two threads run in strict alternation (a turn variable under a mutex), thread B
+ * executes exactly what the tape's "step B" operations and preemptions tell it to (one callback of fake loop B at a time), so
+ * the case is still a pure function of the tape.  upump_mgr_run() of the fake loop is the parking place of thread B. */
+struct bth {
+    pthread_mutex_t m;
+    pthread_cond_t cv;
+    int turn;                       /* 0: thread A runs, 1: thread B runs */
+    int cmd;                        /* BC_* for thread B */
+    unsigned choice;
+    bool did;
+    bool reached_alloc, released, running, quit_sent;
+    bool want_a; int a_steps; unsigned a_choice; int a_done;     /* thread B asks thread A to run callbacks of loop A (preemption of B) */
+    pthread_t tid;
+    struct ctx *c;
+};
+enum { BC_NONE, BC_GO, BC_STEP, BC_QUIT };
+
+static bool on_thread_b(struct ctx *c) { return c->bth != NULL && c->bth->released && pthread_equal(pthread_self(), c->bth->tid); }
+
 static int cur_side(struct ctx *c)
 {
+    if (c->bth != NULL) return on_thread_b(c) ? SB : SA;
     struct upump_mgr *cl = fake_upump_current();
     if (cl != NULL) return cl == c->loop[SB] ? SB : SA;
     return c->forced;
+}
+
+/* thread B: park until thread A hands over the turn */
+static void bth_park_locked(struct bth *b)
+{
+    b->turn = 0;
+    pthread_cond_broadcast(&b->cv);
+    while (b->turn != 1) pthread_cond_wait(&b->cv, &b->m);
+}
+
+/* called by upipe_pthread_start() on thread B: the first thing the new thread does that matters */
+static struct upump_mgr *bth_mgr_alloc(uint16_t pool_depth, uint16_t blocker_pool_depth)
+{
+    struct bth *b = ctx.bth;
+    pthread_mutex_lock(&b->m);
+    b->reached_alloc = true;
+    pthread_cond_broadcast(&b->cv);
+    while (b->turn != 1) pthread_cond_wait(&b->cv, &b->m);     /* wait for BC_GO */
+    pthread_mutex_unlock(&b->m);
+    return upump_mgr_use(b->c->loop[SB]);
+}
+
+/* upump_mgr_run() of fake loop B, on thread B: serve the harness' commands until told to leave */
+static int bth_run(struct upump_mgr *mgr, struct umutex *mutex, void *opaque)
+{
+    struct bth *b = opaque;
+    pthread_mutex_lock(&b->m);
+    b->running = true;
+    for (;;) {
+        bth_park_locked(b);
+        if (b->cmd == BC_QUIT) break;
+        if (b->cmd == BC_STEP) {
+            pthread_mutex_unlock(&b->m);
+            bool did = fake_upump_step(mgr, b->choice);
+            pthread_mutex_lock(&b->m);
+            b->did = did;
+        }
+    }
+    b->running = false;
+    pthread_mutex_unlock(&b->m);
+    return UBASE_ERR_NONE;      /* as upump_ev: no active pump is left */
+}
+
+/* thread A: give the turn to thread B with a command and wait until it parks again; meanwhile serve its requests for loop A */
+static void bth_resume(struct ctx *c, int cmd, unsigned choice)
+{
+    struct bth *b = c->bth;
+    pthread_mutex_lock(&b->m);
+    b->cmd = cmd; b->choice = choice; b->did = false;
+    b->turn = 1;
+    pthread_cond_broadcast(&b->cv);
+    for (;;) {
+        while (b->turn != 0) pthread_cond_wait(&b->cv, &b->m);
+        if (!b->want_a) break;
+        pthread_mutex_unlock(&b->m);
+        int done = 0;
+        for (int i = 0; i < b->a_steps; i++) if (fake_upump_step(c->loop[SA], b->a_choice)) done++;
+        pthread_mutex_lock(&b->m);
+        b->a_done = done; b->want_a = false;
+        b->turn = 1;
+        pthread_cond_broadcast(&b->cv);
+    }
+    pthread_mutex_unlock(&b->m);
+}
+
+/* thread B, inside one of its callbacks: have thread A run callbacks of loop A now (B is preempted), then carry on */
+static int bth_call_a(struct ctx *c, int steps, unsigned choice)
+{
+    struct bth *b = c->bth;
+    pthread_mutex_lock(&b->m);
+    b->want_a = true; b->a_steps = steps; b->a_choice = choice; b->a_done = 0;
+    bth_park_locked(b);
+    int done = b->a_done;
+    pthread_mutex_unlock(&b->m);
+    return done;
+}
+
+/* one callback of loop `side`, executed by the thread that owns that loop */
+static bool step_loop(struct ctx *c, int side, unsigned choice)
+{
+    if (c->bth == NULL) return fake_upump_step(c->loop[side], choice);
+    if (side == SA) return on_thread_b(c) ? bth_call_a(c, 1, choice) > 0 : fake_upump_step(c->loop[SA], choice);
+    if (on_thread_b(c)) return fake_upump_step(c->loop[SB], choice);     /* (not used: B never steps itself) */
+    if (!c->bth->running) return false;       /* thread B has not entered its loop yet, or has left it */
+    if (fake_upump_runnable(c->loop[SB]) == 0) return false;
+    bth_resume(c, BC_STEP, choice);
+    return c->bth->did;
+}
+
+/* let thread B go through its start-up (thread-local upump manager, attach of the xfer manager) until it parks in its loop */
+static void bth_release(struct ctx *c)
+{
+    struct bth *b = c->bth;
+    if (b == NULL || b->released) return;
+    pthread_mutex_lock(&b->m);
+    while (!b->reached_alloc) pthread_cond_wait(&b->cv, &b->m);
+    b->released = true;
+    pthread_mutex_unlock(&b->m);
+    bth_resume(c, BC_GO, 0);
+}
+
+/* end of the case: loop B has no pump left, upump_mgr_run returns, the thread signals its termination descriptor and exits;
+ * the application's loop then joins it (upipe_pthread_stop) */
+static void bth_quit(struct ctx *c)
+{
+    struct bth *b = c->bth;
+    if (b == NULL || !b->running || b->quit_sent) return;
+    pthread_mutex_lock(&b->m);
+    b->cmd = BC_QUIT; b->turn = 1; b->quit_sent = true;
+    pthread_cond_broadcast(&b->cv);
+    pthread_mutex_unlock(&b->m);
+    /* the last act of the thread is to write its termination descriptor, watched by a pump of loop A */
+    struct timespec t0, t;
+    clock_gettime(CLOCK_MONOTONIC, &t0);
+    while (fake_upump_runnable(c->loop[SA]) == 0) {
+        sched_yield();
+        clock_gettime(CLOCK_MONOTONIC, &t);
+        if (t.tv_sec - t0.tv_sec > 20) break;     /* inconclusive: reported by the audit as a pump left in loop A */
+    }
 }
 
 /* ---------------------------------------------------------------- preemption at shared-memory accesses */
@@ -249,7 +399,7 @@ void upipe_verif_yield(int kind, const volatile void *addr)
     c->in_preempt = true;
     int done = 0;
     for (int i = 0; i < c->pre_steps; i++)
-        if (fake_upump_step(c->loop[other], c->pre_choice)) done++;
+        if (step_loop(c, other, c->pre_choice)) done++;
     c->in_preempt = false;
     if (done) CLS(CL_PREEMPTED);
     R("    ~~ thread %s preempted at shared access #%u (kind %d): %d callback(s) of loop %s ran\n", side_name(me), c->hooks_in_op, kind, done, side_name(other));
@@ -520,6 +670,15 @@ static int mock_control(struct upipe *upipe, int command, va_list args)
         return UBASE_ERR_NONE;
     case UPIPE_GET_OUTPUT: {
         mock_enter(m, "get_output");
+        /* like every pipe built on upipe_helper_upump_mgr, a remote pipe without upump manager asks for one whenever it is
+         * entered through control ("upipe_get_output is a control command and may trigger a need_upump_mgr event",
+         * upipe_worker.c); while the worker is being allocated in the application thread the answer must not be the
+         * application's manager: the pipe is about to run in the other thread (the worker freezes the probe for that) */
+        if (c->in_worker_alloc && (m->role == R_REMOTE || m->role == R_SOURCE) && m->upump_mgr == NULL) {
+            upipe_throw_need_upump_mgr(upipe, &m->upump_mgr);
+            if (m->upump_mgr != NULL && m->upump_mgr == c->loop[SA])
+                FAIL("thread/upump-mgr", "remote pipe %d asked for a upump manager during the allocation of the worker and was given the APPLICATION thread's event loop: its pumps would run in the wrong thread", m->id);
+        }
         struct upipe **p = va_arg(args, struct upipe **);
         *p = m->role == R_TAP ? NULL : m->output;
         return UBASE_ERR_NONE; }
@@ -708,7 +867,7 @@ static void op_step(struct ctx *c, int side, unsigned choice)
     c->hash = vp_hash_mix(c->hash, 0x50 + side * 16 + (n ? choice % n : 0));
     if (n == 0) return;
     ARM(c);
-    fake_upump_step(c->loop[side], choice);
+    step_loop(c, side, choice);
     end_op(c, "after a loop step");
 }
 
@@ -718,7 +877,7 @@ static void op_run(struct ctx *c, int side, int max)
     c->hash = vp_hash_mix(c->hash, 0x70 + side);
     for (int i = 0; i < max && !c->ret; i++) {
         ARM(c);
-        bool did = fake_upump_step(c->loop[side], 0);
+        bool did = step_loop(c, side, 0);
         DISARM(c);
         if (!did) break;
     }
@@ -940,11 +1099,34 @@ static void setup_worker(struct ctx *c, uint8_t f, uint8_t b3, uint8_t pa)
     unsigned msgpool = (unsigned[]){ 0, 1, 4 }[(b3 / 9) % 3];
     c->mutex.refcount = NULL; c->mutex.umutex_lock = fmutex_lock; c->mutex.umutex_unlock = fmutex_unlock;
     if (c->with_mutex) CLS(CL_MUTEX);
-    struct upipe_mgr *xfer_mgr = upipe_xfer_mgr_alloc(c->xlen, msgpool, c->with_mutex ? &c->mutex : NULL);
-    if (xfer_mgr == NULL) { INTERNAL("xfer mgr alloc"); return; }
-    if (!late_attach) { c->forced = SB; upipe_xfer_mgr_attach(xfer_mgr, c->loop[SB]); c->forced = SA; }
+    bool real_thread = (f >> 4) & 1;
+    struct upipe_mgr *xfer_mgr;
+    if (real_thread) {
+        /* thread B is a real thread made by upipe_pthread_xfer_mgr_alloc; both threads get their upump manager from the real
+         * uprobe_pthread_upump_mgr (the harness keeps a reference so that the probe is destroyed in thread A, at the end) */
+        CLS(CL_REAL_THREAD);
+        struct bth *b = calloc(1, sizeof *b);
+        pthread_mutex_init(&b->m, NULL); pthread_cond_init(&b->cv, NULL);
+        b->c = c;
+        c->bth = b;
+        fake_upump_set_run_cb(bth_run, b);
+        c->pth_probe = uprobe_pthread_upump_mgr_alloc(uprobe_use(c->old_services));
+        if (c->pth_probe == NULL) { INTERNAL("uprobe_pthread_upump_mgr_alloc"); return; }
+        uprobe_pthread_upump_mgr_set(c->pth_probe, c->loop[SA]);
+        c->pfx.services = c->pth_probe;
+        hc_pause(1);            /* the thread's stack and TLS blocks belong to the C library, which caches them */
+        xfer_mgr = upipe_pthread_xfer_mgr_alloc(c->xlen, msgpool, uprobe_use(c->pth_probe), bth_mgr_alloc, c->pfx.cfg.pool_depth, c->pfx.cfg.pool_depth,
+                                                c->with_mutex ? &c->mutex : NULL, &b->tid, NULL);
+        hc_pause(-1);
+        if (xfer_mgr == NULL) { INTERNAL("upipe_pthread_xfer_mgr_alloc"); return; }
+        if (!late_attach) bth_release(c);
+    } else {
+        xfer_mgr = upipe_xfer_mgr_alloc(c->xlen, msgpool, c->with_mutex ? &c->mutex : NULL);
+        if (xfer_mgr == NULL) { INTERNAL("xfer mgr alloc"); return; }
+        if (!late_attach) { c->forced = SB; upipe_xfer_mgr_attach(xfer_mgr, c->loop[SB]); c->forced = SA; }
+    }
     struct upipe_mgr *work_mgr = c->topo == T_WLIN ? upipe_wlin_mgr_alloc(xfer_mgr) : c->topo == T_WSINK ? upipe_wsink_mgr_alloc(xfer_mgr) : upipe_wsrc_mgr_alloc(xfer_mgr);
-    if (late_attach) upipe_mgr_use(xfer_mgr);     /* reference of the remote thread, released after its attach */
+    if (late_attach && !real_thread) upipe_mgr_use(xfer_mgr);     /* reference of the remote thread, released after its attach */
     upipe_mgr_release(xfer_mgr);
     /* remote pipeline, built by the application before the transfer */
     struct upipe *remote;
@@ -973,17 +1155,20 @@ static void setup_worker(struct ctx *c, uint8_t f, uint8_t b3, uint8_t pa)
         R("  (worker allocation preempted at its shared access #%d by the remote loop)\n", c->countdown);
     }
     ARM(c);
+    c->in_worker_alloc = true;
     switch (c->topo) {
     case T_WLIN: c->worker = upipe_wlin_alloc(work_mgr, pw, remote, pr, c->qlen, c->qlen2); CLS(CL_WLIN); break;
     case T_WSINK: c->worker = upipe_wsink_alloc(work_mgr, pw, remote, pr, c->qlen); CLS(CL_WSINK); break;
     default: c->worker = upipe_wsrc_alloc(work_mgr, pw, remote, pr, c->qlen); CLS(CL_WSRC); break;
     }
+    c->in_worker_alloc = false;
     DISARM(c);
     upipe_mgr_release(work_mgr);
     c->transferred = true;         /* from now on the remote pipes must not be accessed from thread A */
     if (c->worker == NULL) { INTERNAL("worker alloc"); return; }
     if (freeze) { uprobe_throw(c->worker->uprobe, NULL, UPROBE_THAW_UPUMP_MGR); upipe_attach_upump_mgr(c->worker); }
-    if (late_attach) { c->forced = SB; upipe_xfer_mgr_attach(xfer_mgr, c->loop[SB]); upipe_mgr_release(xfer_mgr); c->forced = SA; }
+    if (late_attach && real_thread) bth_release(c);
+    else if (late_attach) { c->forced = SB; upipe_xfer_mgr_attach(xfer_mgr, c->loop[SB]); upipe_mgr_release(xfer_mgr); c->forced = SA; }
     if (c->topo != T_WSINK) upipe_set_output(c->worker, c->tap);
     if (c->topo != T_WSRC) {
         c->ver[0] = ++c->gver;
@@ -992,8 +1177,8 @@ static void setup_worker(struct ctx *c, uint8_t f, uint8_t b3, uint8_t pa)
         uref_free(def);
         if (!ubase_check(err)) INTERNAL("worker set_flow_def %d", err);
     }
-    R("  worker %s: queue length(s) %u/%u, xfer queue %u, %s%s%s%s\n", c->topo == T_WLIN ? "linear" : c->topo == T_WSINK ? "sink" : "source",
-      c->qlen, c->qlen2, c->xlen, freeze ? "upump-mgr probe frozen during alloc, " : "", c->with_mutex ? "xfer mutex, " : "", late_attach ? "remote loop attached after alloc, " : "", chain2 ? "2 remote pipes" : "1 remote pipe");
+    R("  worker %s: queue length(s) %u/%u, xfer queue %u, %s%s%s%s%s\n", c->topo == T_WLIN ? "linear" : c->topo == T_WSINK ? "sink" : "source",
+      c->qlen, c->qlen2, c->xlen, freeze ? "upump-mgr probe frozen during alloc, " : "", real_thread ? "REAL loop thread (upipe_pthread_xfer_mgr_alloc + uprobe_pthread_upump_mgr), " : "", c->with_mutex ? "xfer mutex, " : "", late_attach ? "remote loop attached after alloc, " : "", chain2 ? "2 remote pipes" : "1 remote pipe");
 }
 
 /* ---------------------------------------------------------------- run */
@@ -1088,8 +1273,13 @@ static int run(const uint8_t *tape, size_t len, struct vp_report *rep, unsigned 
         int steps = 0;
         for (;;) {
             int n = 0;
-            while (steps < 20000 && fake_upump_step(c->loop[SA], 0)) { n++; steps++; }
-            while (steps < 20000 && fake_upump_step(c->loop[SB], 0)) { n++; steps++; }
+            while (steps < 20000 && step_loop(c, SA, 0)) { n++; steps++; }
+            while (steps < 20000 && step_loop(c, SB, 0)) { n++; steps++; }
+            if (n == 0 && c->bth != NULL && c->bth->running && fake_upump_count(c->loop[SB]) == 0) {
+                /* nothing left in loop B: its thread leaves upump_mgr_run and terminates; loop A joins it */
+                bth_quit(c);
+                while (steps < 20000 && step_loop(c, SA, 0)) { n++; steps++; }
+            }
             if (n == 0 || steps >= 20000) break;
         }
         if (steps >= 20000) FAIL("stall/livelock", "the loops were still firing after 20000 callbacks although the application released everything");
@@ -1117,6 +1307,16 @@ static int run(const uint8_t *tape, size_t len, struct vp_report *rep, unsigned 
         }
     }
     /* fixture teardown */
+    if (c->bth != NULL) {
+        fake_upump_set_run_cb(NULL, NULL);
+        if (c->ret == 0 && c->bth->running) FAIL("audit/thread", "the loop thread is still inside upump_mgr_run after everything was released and both loops ran dry");
+        if (c->pth_probe != NULL) { uprobe_release(c->pth_probe); c->pth_probe = NULL; }
+        if (c->ret == 0 && !c->bth->running && (c->bth->quit_sent || !c->bth->released)) {
+            if (!c->bth->released) { /* never started its loop: cannot happen in a finished case (the tail releases it) */ }
+            pthread_mutex_destroy(&c->bth->m); pthread_cond_destroy(&c->bth->cv); free(c->bth);
+        }   /* else: the case failed, the parked thread and its control block are abandoned */
+        c->bth = NULL;
+    }
     c->pfx.services = c->old_services;
     if (c->ret == 0) {
         upump_mgr_vacuum(c->loop[SB]);
